@@ -29,6 +29,7 @@ type vpC04Cand struct {
 	final    bool
 	ins      []*vpLUTXO
 	rejected bool
+	pruned   bool // displaced by a finalization-path takeover of its input
 }
 
 func vpC04Pool(n int) []crypto.Key {
@@ -75,7 +76,7 @@ func vpC04MakeCand(t *rapid.T, l *vpLedger, pool []crypto.Key, u *vpLUTXO) *vpC0
 
 func TestVP_C04_ghost_binding(t *testing.T) {
 	c := kit.New(t, "C04", "rapid: pool of 4..20 one-time output keys; 3..10 candidate transfers (distinct inputs) whose output keys are drawn from the pool with overlaps inside and across transactions; drawn sequence of validate (admission path), direct key reservation (ordinary and finalization-path flag), unvalidated persist, finalize; oracle: model ghost[key] -> first binder; a key is never rebound to another transaction, a transaction repeating a key in its own outputs is rejected, finalizing a transaction whose key belongs to another fails with an unchanged database dump, ReadGhostKeyLock equals the model after every step; the three hard-coded historical hashes are checked as a fixed table; non-trivial = history with a cross-transaction reuse attempt after a binding and a finalize-time conflict; distinct by trace")
-	c.Require("cross-reuse-rejected", "self-dup-rejected", "finalize-conflict", "fork-flag-no-override", "bound-by-validate", "bound-by-finalize")
+	c.Require("cross-reuse-rejected", "self-dup-rejected", "finalize-conflict", "fork-flag-no-override", "bound-by-validate", "bound-by-finalize", "holder-displaced")
 	kit.SetChecks(kit.N(150, 6000))
 	rapid.Check(t, func(t *rapid.T) {
 		l := vpLNewLedger(7, "c04", 4)
@@ -137,9 +138,9 @@ func TestVP_C04_ghost_binding(t *testing.T) {
 		nops := rapid.IntRange(8, 40).Draw(t, "nops")
 		for i := 0; i < nops; i++ {
 			cd := cands[rapid.IntRange(0, len(cands)-1).Draw(t, "cand")]
-			switch op := rapid.IntRange(0, 6).Draw(t, "op"); {
+			switch op := rapid.IntRange(0, 7).Draw(t, "op"); {
 			case op <= 2: // admission path
-				if cd.locked {
+				if cd.locked || cd.pruned {
 					continue
 				}
 				fork := op == 2 && rapid.Bool().Draw(t, "fork")
@@ -198,8 +199,22 @@ func TestVP_C04_ghost_binding(t *testing.T) {
 				} else {
 					bind(cd)
 				}
+			case op == 7: // a rival spend of the same input arrives on the finalization path and displaces the pending candidate
+				if !cd.locked || cd.final || cd.pruned {
+					continue
+				}
+				rtx := l.BuildSpend(cd.ins[0].Asset, cd.ins, []vpLOut{{Type: common.OutputTypeScript, Owners: []int{1}, Threshold: 1, Amount: cd.ins[0].Amount}}, nil, []byte(fmt.Sprintf("rival-%d", i)))
+				rival := l.SignMaps(rtx, cd.ins, [][]int{{0}})
+				if err := rival.LockInputs(l.Store, true); err != nil {
+					t.Fatalf("finalization-path takeover of a pending holder: %v", err)
+				}
+				cd.pruned, cd.locked = true, false
+				trace = append(trace, fmt.Sprintf("takeover(%s)", cd.hash.String()[:6]))
+				classes["holder-displaced"] = true
+				// the displaced transaction's key bindings stay what they were: the
+				// model is unchanged and check() below compares every key
 			case op == 4: // persist without validation (what a finalization-path peer body may look like)
-				if cd.locked || cd.selfDup {
+				if cd.locked || cd.selfDup || cd.pruned {
 					continue
 				}
 				if err := cd.ver.LockInputs(l.Store, false); err != nil {
